@@ -27,12 +27,13 @@ type X struct {
 	ID     int64
 }
 
-var fieldNames = []string{"id", "tag", "a", "b", "s", "d", "o", "x"}
+var fieldNames = []string{"id", "tag", "a", "b", "s", "d", "o", "x", "rawValue", "m", "e"}
 
 // composite type ids by number; 8 and 9 do not resolve
 var compTypeIDs = map[int]string{
 	0: "A.0000000000000001.C.S0", 1: "A.0000000000000001.C.S1", 2: "A.0000000000000001.C.S2",
 	3: "A.0000000000000001.C.S3", 4: "A.0000000000000001.C.R0", 5: "A.0000000000000001.C.Ev",
+	6: "A.0000000000000001.C.En", 7: "A.0000000000000001.C.S4",
 	8: "A.0000000000000002.C.S0", 9: "A.0000000000000001.C.Nope",
 }
 
@@ -49,6 +50,8 @@ var compFields = map[int][]fieldDecl{
 	3: {{5, dict(prim("String"), prim("UInt8"))}, {6, opt(comp(0))}},
 	4: {{0, prim("Int")}},
 	5: {{0, prim("Int")}},
+	6: {{8, prim("UInt8")}},
+	7: {{9, dict(comp(6), prim("Int"))}, {10, comp(6)}},
 }
 
 const contractC = `
@@ -63,6 +66,9 @@ access(all) contract C {
     init() { self.d = {}; self.o = nil } }
   access(all) resource R0 { access(all) let id: Int; init(id: Int) { self.id = id } }
   access(all) event Ev(id: Int)
+  access(all) enum En: UInt8 { access(all) case a; access(all) case b }
+  access(all) struct S4 { access(all) let m: {En: Int}; access(all) let e: En
+    init() { self.m = {}; self.e = En.a } }
 }`
 
 func jstr(s string) string { return fmt.Sprintf("%q", s) }
@@ -240,6 +246,7 @@ func (x *X) positions() []**X {
 	}
 	for i := range x.Keys {
 		out = append(out, &x.Keys[i])
+		out = append(out, x.Keys[i].positions()...)
 	}
 	return out
 }
